@@ -714,6 +714,12 @@ pub fn execute_buy_listing(
     // Mutable response
     let mut res = Response::<cosmwasm_std::Empty>::new();
 
+    // A bucket received as sale proceeds may still carry an unpaid community pool fee.
+    // It is replaced below by the fee of this purchase, so it has to be paid out now
+    if let Some(pending_fee) = &the_bucket.fee_amount {
+        res = res.add_message(pending_fee.get_cp_msg(env.contract.address.clone())?);
+    }
+
     // Royalty Registry address
     let Some(royalty_reg): Option<Addr> = ROYALTY_REGISTRY.load(deps.storage)? else {
         // probably assert here
